@@ -16,6 +16,11 @@ PROP = {
         # arrays above 64 KiB (10000 tracked elements; also split / concat / lengthen / shorten at that size, and one-byte elements with a destructor through every conversion): the conversions to Vec / Box<[T]> / native array / iterator
         # and back move every element silently, and dropping the result releases each identity once (direct oracles)
         {"tag": "c03big", "bin": "c03", "args": ["--big"], "model": False, "timeout": 300},
+        # std's provided iterator methods (find, filter, skip_while, position, max, step_by, ..) on the by-value iterator,
+        # nothing panicking: every element is handed out or released exactly once (the bin of C05, direct oracles)
+        {"tag": "c03provided", "bin": "c05", "args": ["--provided"], "model": False},
+        # serde: deserialize_in_place into an array of drop-tracked elements (the bin of C17, direct oracle)
+        {"tag": "c03inplace", "bin": "c17", "args": ["--inplace"], "model": False},
         # heap-payload elements with the bin rebuilt under AddressSanitizer (nightly): double free /
         # use-after-free abort the case that was running
         {"tag": "c03th-asan", "bin": "c03", "args": ["--elem", "th", "--sanitize"], "tiers": ["thorough"],
